@@ -16,6 +16,14 @@ theorem C09_gate (a : Alg) (k : KeyItem) :
     (checkKeyBits a k = none ↔ a.isPk = true ∧ strengthOk a k) :=
   ⟨checkHmac_none_iff a k, checkKeyBits_none_iff a k⟩
 
+/-- **The floor is the one in the source** (generated from `__check_hmac` / `__check_key_bits` of `jwt.c`):
+the rule every C09 theorem is stated with, `strengthOk`, holds for an algorithm and a key exactly when the
+size test written in that algorithm's `case` lets `key->bits` through and the key has the type the case
+passes to `__check_key_type`. -/
+theorem C09_floor_is_source (a : Alg) (k : KeyItem) :
+    strengthOk a k ↔ (Generated.gateSize a k.bits ∧ Generated.gateType a = some k.kty) :=
+  strengthOk_iff_generated a k
+
 /-- **No primitive is reached below the floor**: every call verification makes into HMAC or the
 provider's public-key verification is for a (key, algorithm) pair that satisfies the rule. -/
 theorem C09_verify_calls (env : Env) (c : CheckerCfg) (tok : Bytes) :
